@@ -42,9 +42,10 @@ ALL_TEMPLATES = ["T1", "T2", "T3", "T4", "T5", "T6", "T7", "T8", "T9"]
 BASIC_TEMPLATES = ("T1", "T2", "T3", "T4", "T5", "T6")
 ALL_EDITS = ("aL", "aR", "v1", "v2", "v-")
 ALIAS = dict(edits=ALL_EDITS, addhows=("api", "ref"))
+ALL_PEEKS = ("varrefs", "getopt", "nodevars", "validate", "instance", "replicate")
 P3 = ("default", "p1", "p2")
 DERIVED = dict(rivals=("0", "5"), ipvals=("B",))
-ALL_ACTS = {"ReplaceSame", "Query", "SetCompVar", "DelCompVar", "SetArgs", "SetNp", "DelNp", "SetRi", "DelRi", "SetIp", "DelIp", "SetGlobal", "SetStageVar",
+ALL_ACTS = {"Peek", "ReplaceSame", "Query", "SetCompVar", "DelCompVar", "SetArgs", "SetNp", "DelNp", "SetRi", "DelRi", "SetIp", "DelIp", "SetGlobal", "SetStageVar",
             "SetPlatformGlobal", "SetPlatformStage", "InPlaceGlobal", "InPlaceStage", "AddComp", "ReplaceComp",
             "DeleteComp", "MutateReturned"}
 ALL_KINDS = {"ok", "done", "ComponentUnknown", "VariableUnknown", "ConvertError", "ComponentExists", "KeyError", "PlatformUnknown"}
@@ -97,16 +98,16 @@ def write_module(name, stages, hits, extends="ConfigCache", extra=""):
 
 def write_cfg(name, vals=("1", "2"), flavours=ALL_FLAVOURS, templates=BASIC_TEMPLATES, bases=(0,), lenient_poisons=False,
               hows=("api", "conf", "ref"), howdel=("api", "conf"), emit=False, maxlevel=100, spec="Spec", view=True,
-              invariants=("TypeOK", "Coherent"), properties=("QueryFresh", "Private", "QueryPure"), constraint=None,
+              invariants=("TypeOK", "Coherent"), properties=("QueryFresh", "Private", "QueryPure", "BypassPure"), constraint=None,
               extra_const="", plats=("default", "p1"), argvals=("L", "R"), npvals=None, rivals=(), ipvals=(), derived_frozen=False,
-              edits=(), addhows=("api",)):
+              edits=(), addhows=("api",), peeks=()):
     """plats: the platforms that are queried and addressed by the variable mutators ("p2" = the one created on demand)"""
     if npvals is None:
         npvals = tuple(vals) + ("R",)
     lines = ["CONSTANTS", "  CompSeq <- mcCompSeq", "  StageOf <- mcStageOf", "  Hits <- mcHits", "  PlatSeq <- mcPlatSeq",
              "  InitPlats = %s" % tla_set(L.INIT_PLATS), "  QueryPlats = %s" % tla_set(plats), "  MutPlats = %s" % tla_set(plats),
              "  SetArgVals = %s" % tla_set(argvals), "  SetNpVals = %s" % tla_set(npvals), "  RiVals = %s" % tla_set(rivals),
-             "  IpVals = %s" % tla_set(ipvals), "  Edits = %s" % tla_set(edits), "  AddHows = %s" % tla_set(addhows), "  DerivedFrozen = %s" % ("TRUE" if derived_frozen else "FALSE"),
+             "  IpVals = %s" % tla_set(ipvals), "  Edits = %s" % tla_set(edits), "  AddHows = %s" % tla_set(addhows), "  PeekKinds = %s" % tla_set(peeks), "  DerivedFrozen = %s" % ("TRUE" if derived_frozen else "FALSE"),
              "  Vals = %s" % tla_set(vals), "  Flavours = %s" % tla_set(flavours), "  Templates = %s" % tla_set(templates),
              "  BaseIds = {%s}" % ", ".join(str(b) for b in bases), "  LenientPoisons = %s" % ("TRUE" if lenient_poisons else "FALSE"),
              "  HowSet = %s" % tla_set(hows), "  HowDel = %s" % tla_set(howdel), "  Emit = %s" % ("TRUE" if emit else "FALSE"),
@@ -389,10 +390,14 @@ def alphabet(w, flavours=ALL_FLAVOURS):
     return queries, muts
 
 
+def peek_calls(w):
+    return [dict(act="Peek", c=c, p=U, st=-1, x=k, how=U) for c in w.labels for k in ALL_PEEKS]
+
+
 MUTATE_RETURNED = dict(act="MutateReturned", c=U, p=U, st=-1, x=U, how=U)
 
 
-def systematic_histories(w):
+def systematic_histories(w, three_step=True):
     """For EVERY mutator call: fill the cache with the four full queries, mutate, then ask every query (every flavour,
     both platforms, both components).  Plus the same with MutateReturned after a cache hit and after a miss."""
     queries, muts = alphabet(w)
@@ -404,6 +409,16 @@ def systematic_histories(w):
     hs.append([fill[1], MUTATE_RETURNED] + after)                        # ... and on a miss (the value that was stored)
     hs.append(fill + [fill[-1], MUTATE_RETURNED] + after)                # ... and over a lenient answer taken from the cache
     hs.append(fill + [queries[1], MUTATE_RETURNED] + after)              # ... and over a raw result
+    # cache warm -> component-level update -> a call that reads the configuration WITHOUT the cache (every bypassing query
+    # flavour is already in `after`; here the other entry points) -> the cacheable queries on every platform
+    c1 = w.labels[0]
+    peeks = [k for k in peek_calls(w) if k["c"] == c1]
+    bypass = [q for q in queries if q["c"] == c1 and q["p"] == "default" and q["x"] not in ("full", "lenient")]
+    for m in muts if three_step else ():
+        if (m["c"] == c1 and m["act"] in L.COMP_SCOPED and m["act"] != "ReplaceSame" and m["how"] == "api"
+                and m["x"] not in ("T3", "T4", "T5", "T6", "T9", "2")):
+            for k in peeks + bypass:
+                hs.append(fill + [m, k] + fill)
     # a platform created on demand, through either scope, followed by the in-place getters of the other scope
     newp = L.PLATS[-1]
     create = [m for m in muts if m["p"] == newp and m["act"] in ("SetPlatformGlobal", "SetPlatformStage") and m["x"] == "2"]
@@ -414,7 +429,6 @@ def systematic_histories(w):
     # update_component twice: (i) a fresh equal definition, (ii) a fresh different one, (iv) one that is equal under == but not
     # in type (T7/T8/T9), and (iii) the same object again after an in-place edit of a nested section -- each after the cache
     # was filled, followed by every query
-    c1 = w.labels[0]
     repl = {m["x"]: m for m in muts if m["act"] == "ReplaceComp" and m["c"] == c1}
     same = [m for m in muts if m["act"] == "ReplaceSame" and m["c"] == c1]
     for t1 in ("T1", "T2", "T7", "T8", "T9"):
@@ -439,6 +453,7 @@ def systematic_histories(w):
 def random_histories(w, n, length, rng):
     """Call sequences chosen by the driver (MutateReturned is inserted while recording, when a result is held)."""
     queries, muts = alphabet(w)
+    muts = muts + peek_calls(w)
     full = [a for a in queries if a["x"] in ("full", "lenient")]
     hs = []
     for t in range(n):
@@ -666,7 +681,7 @@ def trace_tlc(world, hits, base, traces, tag):
     lit = "<<" + ",\n".join("[base |-> %d, steps |-> %s]" % (base, tla_value(t)) for t in traces) + ">>"
     mod = write_module("ConfigCache_tr_%s_%d_%s" % (world, base, tag), w.stages, hits, extends="ConfigCache_trace", extra="mcTraces == " + lit)
     cfg = write_cfg("CC_tr_%s_%d_%s" % (world, base, tag), bases=(base,), spec="TraceSpec", view=False, invariants=("Report", "Coherent"),
-                    properties=("TraceQueryFresh", "TracePrivate"), extra_const="  Traces <- mcTraces", **ALIAS)
+                    properties=("TraceQueryFresh", "TracePrivate"), extra_const="  Traces <- mcTraces", peeks=ALL_PEEKS, **ALIAS)
     r = tlc_run(mod, cfg, workers=1, timeout=1500, expect_violation=True)
     if r["violated"] is not None:
         # the spec's own invariants cannot fail on a followed behaviour unless the model is broken
@@ -753,14 +768,14 @@ def _run_check(chk, tier, thorough, runner, sd):
         hits[wid] = {l: set(h[l]) | {l} for l in h}        # the design needs the self-hit; over-hits are modelled as observed
     stats = {w: {"steps": 0, "planned_steps": 0, "walks": 0, "queries": 0, "cache_hits": 0, "drift": 0, "violations": 0} for w in worlds}
     small = dict(flavours=("full", "raw", "lenient"), templates=("T2", "T5"))
-    everything = dict(plats=P3, templates=ALL_TEMPLATES, **DERIVED, **ALIAS)
+    everything = dict(plats=P3, templates=ALL_TEMPLATES, peeks=ALL_PEEKS, **DERIVED, **ALIAS)
     alias = dict(flavours=("full", "raw", "lenient"), templates=("T2", "T7", "T8", "T9"), argvals=(), npvals=("R",), vals=("1",),
                  hows=("api",), howdel=("api",), **ALIAS)
     derived = dict(flavours=("full", "prim", "noinj"), templates=("T6",), argvals=(), npvals=(), vals=("1",), **DERIVED)
     newplat = dict(flavours=("full", "nodef"), templates=(), argvals=(), npvals=(), plats=P3, hows=("api",), howdel=("api",))
     plan = []   # (world, base, maxlevel, tag, consts)
     if not thorough:
-        plan += [("prefix", 0, 3, "full", dict(flavours=("full", "raw", "lenient"))), ("prefix", 1, 3, "small", small),
+        plan += [("prefix", 0, 3, "full", dict(flavours=("full", "raw", "lenient"), peeks=ALL_PEEKS)), ("prefix", 1, 3, "small", small),
                  ("stage", 0, 3, "small", dict(small, hows=("api", "ref"), howdel=("api",))), ("dot", 0, 3, "small", dict(small, hows=("api", "ref"), howdel=("api",))),
                  ("loop", 1, 3, "small", dict(small, hows=("conf",), howdel=("conf",))),
                  ("plus", 0, 3, "small", dict(small, hows=("api",), howdel=("api",))), ("paren", 0, 2, "small", small),
@@ -793,7 +808,7 @@ def _run_check(chk, tier, thorough, runner, sd):
         for wid, b in tr_plan:
             w = runner.world(wid)
             base_code = w.base_code(b)
-            hs = systematic_histories(w)
+            hs = systematic_histories(w, three_step=thorough or (wid, b) in (("prefix", 0), ("stage", 0)))
             nsys += len(hs)
             hs += random_histories(w, ntr, ltr, rng)
             traces = record(wid, base_code, hs)
